@@ -187,6 +187,42 @@ Proof.
   cbv zeta in *. rewrite H. cbn [finit f_sum]. lia.
 Qed.
 
+Lemma aggregate_mixed_gen sec calls : forall s,
+  let r := frun (KAggregate sec) s calls in
+  let rn := frun (KAggregate sec) s (numeric_calls calls) in
+  snd r = snd rn /\ deliveries (fst r) = deliveries (fst rn) /\
+  sum_outs (fst r) + f_sum (snd r) = f_sum s + sum_calls calls.
+Proof.
+  induction calls as [|[t x] cs IH]; intros s; [cbn; repeat split; lia|].
+  cbn zeta. unfold numeric_calls. cbn [filter snd]. rewrite sum_calls_cons. cbn [snd].
+  destruct x as [z| | |]; cbn [is_num num_of].
+  - cbn [frun fstep].
+    destruct (match f_last s with None => true | Some l => sec <=? t - l end).
+    + specialize (IH (mkF (f_value s) (f_calls s) (Some t) 0)). cbn zeta in IH. fold (numeric_calls cs).
+      destruct (frun (KAggregate sec) _ cs) as [os s2]. destruct (frun (KAggregate sec) _ (numeric_calls cs)) as [osn s2n].
+      cbn [fst snd f_sum] in *. destruct IH as (A & B & C). rewrite sum_outs_cons. unfold deliveries in *. cbn [flat_map].
+      rewrite B. repeat split; [exact A|lia].
+    + specialize (IH (mkF (f_value s) (f_calls s) (f_last s) (f_sum s + z))). cbn zeta in IH. fold (numeric_calls cs).
+      destruct (frun (KAggregate sec) _ cs) as [os s2]. destruct (frun (KAggregate sec) _ (numeric_calls cs)) as [osn s2n].
+      cbn [fst snd f_sum] in *. destruct IH as (A & B & C). rewrite sum_outs_cons. unfold deliveries in *. cbn [flat_map].
+      repeat split; [exact A|exact B|lia].
+  - cbn [frun fstep]. specialize (IH s). cbn zeta in IH. fold (numeric_calls cs).
+    destruct (frun (KAggregate sec) s cs) as [os s2]. cbn [fst snd] in *. destruct IH as (A & B & C).
+    rewrite sum_outs_cons. unfold deliveries in *. cbn [flat_map app]. repeat split; [exact A|exact B|lia].
+  - cbn [frun fstep]. specialize (IH s). cbn zeta in IH. fold (numeric_calls cs).
+    destruct (frun (KAggregate sec) s cs) as [os s2]. cbn [fst snd] in *. destruct IH as (A & B & C).
+    rewrite sum_outs_cons. unfold deliveries in *. cbn [flat_map app]. repeat split; [exact A|exact B|lia].
+  - cbn [frun fstep]. specialize (IH s). cbn zeta in IH. fold (numeric_calls cs).
+    destruct (frun (KAggregate sec) s cs) as [os s2]. cbn [fst snd] in *. destruct IH as (A & B & C).
+    rewrite sum_outs_cons. unfold deliveries in *. cbn [flat_map app]. repeat split; [exact A|exact B|lia].
+Qed.
+
+Theorem C20_aggregate_mixed : C20_aggregate_mixed_statement.
+Proof.
+  intros sec t0 calls. pose proof (aggregate_mixed_gen sec calls (finit (KAggregate sec) t0)) as H.
+  cbv zeta in *. destruct H as (A & B & C). repeat split; [exact A|exact B|]. rewrite C. cbn [finit f_sum]. lia.
+Qed.
+
 (* ---- chains ---- *)
 Lemma chain_gen k1 k2 calls : forall s1 s2,
   flat_map (fun o => match o with Some y => [y] | None => [] end) (frun2 k1 k2 s1 s2 calls) =
